@@ -33,7 +33,7 @@ ASSUMPTIONS = [
     'the value clause already fails']
 REQUIRED = ['kind:gauss', 'kind:lognorm', 'kind:gkde', 'kind:lnkde', 'kind:gmix', 'composed', 'mixed', 'plain',
             'nan', 'full', 'pad', 'drop', 'order2', 'order:noninvolution', 'refined', 'n_ids=1', 'n_times=1',
-            'nk=3', 'n_sim=2', 'nested']
+            'nk=3', 'n_sim=2', 'nested', 'large_common_level:gmix']
 
 
 # --------------------------------------------------------------------------
@@ -118,6 +118,13 @@ def _spec(draw):
             for s in range(n_sim):
                 sim[s][r][j] = col[s]
 
+    # ---- a large common level (counts around 2^24) with spreads of order one: the estimators depend on differences only
+    level = None
+    if not any(positive) and gen.chance(draw, 0.1):
+        level = draw(st.sampled_from([float(2 ** 20), float(2 ** 24), 1e8]))
+        obs = [[[None if v is None else level + round(v * 64) / 64.0 for v in row] for row in ind] for ind in obs]
+        sim = [[[level + round(v * 64) / 64.0 for v in row] for row in ind] for ind in sim]
+
     # ---- transformations
     pad = sorted(draw(st.lists(st.integers(0, n_ids), min_size=0, max_size=3))) if gen.chance(draw, 0.6) else []
     perm = list(draw(st.permutations(list(range(n_ids)))))
@@ -126,7 +133,7 @@ def _spec(draw):
     refine = [_cuts(draw, p['nt'], p['nt']) for p in parts]
     nest = gen.chance(draw, 0.3)
     return dict(nest=nest, parts=parts, composed=composed, obs=obs, sim=sim, drop=drop, pad=pad, perm=perm,
-                order1=order1, order2=order2, refine=refine)
+                order1=order1, order2=order2, refine=refine, level=level)
 
 
 def strategy(tier):
@@ -156,6 +163,10 @@ def classify(spec):
     if any(p.get('nk') == 3 for p in parts):
         labs.add('nk=3')
     labs.add('nan' if _has_nan(spec) else 'full')
+    if spec.get('level'):
+        labs.add('large_common_level')
+        if any(p['kind'] == 'gmix' for p in parts):
+            labs.add('large_common_level:gmix')
     if spec['pad']:
         labs.add('pad')
     if spec['drop']:
@@ -384,6 +395,11 @@ def check(case):
                 case.equal(int(fs.n_times()), n_times, 'n_times after sort_times')
                 _same_as_base(case, fs, sim[:, :, cols], v0, gperm(cols),
                               'sort_times(order1) with reordered simulated values')
+                # the identity order afterwards (what a filter posterior does with the filter it is given when the
+                # times it gets are sorted already) leaves everything as it is
+                fs.sort_times(np.arange(n_times))
+                _same_as_base(case, fs, sim[:, :, cols], v0, gperm(cols),
+                              'sort_times(order1), then sort_times(identity), with reordered simulated values')
         else:
             with case.clause(name):
                 fs, cols = make()
